@@ -231,7 +231,7 @@ def check(P: Project, R: Report) -> None:
 
     from ..summaries import predicate_inliner
 
-    pa, po = run_paths(body, event_of=pev, fallible=True, inliner=predicate_inliner(P, wait))
+    pa, po = run_paths(body, event_of=pev, fallible=True, inliner=predicate_inliner(P, wait), exc_after_events=True)
     pa.parents = A.exception_parents(P)
     called = [st for st in list(po.cont) + list(po.normal) + [s for s, _n in po.ret] + [s for s, _t, _n in po.exc] if any(e.startswith("callback:") for e in st.events)]
     R.need(called, "anchor: no path calls the progress callback")
@@ -250,6 +250,23 @@ def check(P: Project, R: Report) -> None:
         R.ob("R5", "callback receives progress, total, message of that notification", argtxt.split("|") == want, f"{wrel}:{cb.lineno}", f"arguments {argtxt}",
              sample=f"R5 callback({argtxt}) under {g_method} ∧ {g_token}")
         R.ob("R5", "callback invoked once per notification", sum(1 for e in st.events if e.startswith("callback:")) == 1, f"{wrel}:{cb.lineno}", "")
+    # exactly once per matching notification: no iteration path that established method + token skips the callback
+    all_iter = list(po.cont) + list(po.normal) + [s_ for s_, _n in po.ret]
+    skipped = []
+    for st in all_iter:
+        ms = _sendmsg.msg_terms(st, W.msg_term_prefix)
+        if not ms:
+            continue
+        m = ms[0]
+        g_method = f"getattr({m}, 'method', None) == 'notifications/progress'"
+        g_token = f"(getattr({m}, 'params', None) or {{}}).get('progressToken') == {tok_param}"
+        if g_method in st.lits and g_token in st.lits and tok_param in st.lits and cb_param in st.lits:
+            n_cb = sum(1 for e in st.events if e.startswith("callback:"))
+            if n_cb != 1:
+                skipped.append((n_cb, sorted(l[:60] for l in st.lits if l not in (g_method, g_token, tok_param, cb_param) and m not in l or "progress" in l and l not in (g_method, g_token))[:4]))
+    R.ob("R5", "every matching progress notification reaches the callback exactly once", not skipped, f"{wrel}:{cb.lineno}",
+         f"an iteration that established method == notifications/progress and token == ours ends with {skipped[0][0] if skipped else 1} callback calls under extra conditions {skipped[0][1] if skipped else ''}: some matching notifications are filtered out or reported twice")
+
     # after the callback the iteration continues (never returns the notification, never raises)
     after = {"cont": 0, "normal": 0, "ret": 0, "exc": 0}
     for kind, states in (("cont", po.cont), ("normal", po.normal), ("ret", [s for s, _n in po.ret])):
